@@ -255,22 +255,40 @@ def r3_calc(ctx, repo):
         ctx.inconclusive("R3", C, where(mod, fn), detail, key="signed-formula")
     else:
         ctx.violated("R3", C, where(mod, fn), detail, key="signed-formula")
-    # marker appended last
-    last = body[-1] if body else None
-    okm = False
-    md = "the feasibility marker is not appended last"
-    if isinstance(last, ast.Expr) and isinstance(last.value, ast.Call):
-        mc = method_call(last.value)
-        if mc and access_path(mc[0]) == selfn + ".costs_signed" and mc[1] == "append" and last.value.args:
-            a = last.value.args[0]
-            if isinstance(a, ast.UnaryOp) and isinstance(a.op, ast.Not) and text(a.operand) in (selfn + ".features['feasible']", selfn + '.features["feasible"]'):
-                okm = asg and body.index(asg[0]) < body.index(last)
-            elif "feasible" in text(a):
-                md = "marker is %s: designs that satisfy all constraints must get the smaller marker (not feasible -> 0 for feasible)" % text(a)
-    if okm:
-        ctx.holds("R3", C, where(mod, last), "marker = not features['feasible'], appended after the objectives", key="marker")
-    else:
-        ctx.violated("R3", C, where(mod, last or fn), md, key="marker")
+    # marker appended after the objectives: the last write to costs_signed, its value read through the function's bindings
+    TM = Terms(fn)
+    feas = (selfn + ".features['feasible']", selfn + '.features["feasible"]')
+    writes = [s_ for s_ in body if any(access_path(x) == selfn + ".costs_signed" or (access_path(x) or "").startswith(selfn + ".costs_signed[") for x in store_targets_of(s_))
+              or (isinstance(s_, ast.Expr) and isinstance(s_.value, ast.Call) and method_call(s_.value) and access_path(method_call(s_.value)[0]) == selfn + ".costs_signed")]
+    last = writes[-1] if writes else None
+    state, md = None, "the feasibility marker is not recognised"
+    if last is not None and isinstance(last, ast.Expr) and method_call(last.value)[1] == "append" and last.value.args and asg and body.index(asg[0]) < body.index(last):
+        a = TM.expand(last.value.args[0], at=last)
+        if isinstance(a, ast.UnaryOp) and isinstance(a.op, ast.Not) and text(a.operand) in feas:
+            state = True
+        elif text(a) in feas or (isinstance(a, ast.Call) and access_path(a.func) in ("int", "bool", "float") and a.args and text(a.args[0]) in feas):
+            state, md = False, "marker is %s: designs that satisfy all constraints must get the smaller marker (not feasible -> 0 for feasible)" % text(a)
+        elif isinstance(a, ast.Constant):
+            state, md = False, "marker is the constant %s: feasible and infeasible designs are not told apart" % text(a)
+        else:
+            md = "marker %s not recognised" % text(a)
+    elif last is not None and isinstance(last, ast.Expr) and method_call(last.value)[1] == "insert" and len(last.value.args) == 2 \
+            and "feasible" in text(TM.expand(last.value.args[1], at=last)) and is_const(last.value.args[0]) and const_value(last.value.args[0]) in (0, -1):
+        state, md = False, "the marker is inserted at position %s, not appended after the objectives: the comparators read the last component as the marker" % text(last.value.args[0])
+    elif asg and not any(isinstance(s_, ast.Expr) and isinstance(s_.value, ast.Call) and method_call(s_.value) and method_call(s_.value)[1] in ("append", "extend", "insert")
+                         for s_ in stmts_of(fn)) and len(writes) == 1:
+        state, md = False, "no feasibility marker is appended after the objectives"
+    elif last is not None and asg and last is asg[0] and len(writes) > 1:
+        state, md = False, "the marker is appended before costs_signed is assigned: it is overwritten"
+    ctx.check3(state, "R3", C, where(mod, last or fn), "marker = not features['feasible'], appended after the objectives", md, md, key="marker")
+
+
+def store_targets_of(st):
+    if isinstance(st, ast.Assign):
+        return list(st.targets)
+    if isinstance(st, (ast.AugAssign, ast.AnnAssign)):
+        return [st.target]
+    return []
 
 
 def r4_signs(ctx, repo):
